@@ -6,9 +6,9 @@ PROP = "C07"
 CONE = K.MODEL_FILES + ["Proofs/ExprRefine.v", "Proofs/ExprCorollaries.v", "Proofs/ExprRange.v", "Proofs/ExprSound.v", "Props/C07.v"]
 RULE = ("the generator of C06 with the guard shapes first (`xs and xs[0] > 0`, `opt is None or ...`, `0 < n < 10 // n`, "
         "`len(t) > 0 and len(t[0]) > 0`, `r.child is not None and r.child.size > 0`, conditional expressions) plus a "
-        "layout stream: every condition of a base set under 9 layouts of the decorator (one line, many lines, comment, "
+        "layout stream: every condition of a base set under 10 layouts of the decorator (one line, many lines, comment, "
         "keyword form, keyword form over many lines after a comment line, lambda body on the next line, neighbouring "
-        "decorators of other kinds, arguments on lines of their own one of which starts with a name beginning like `def`/`class`) x 3 nestings (function in a factory, method of a class in a factory, async function) x "
+        "decorators of other kinds, arguments on lines of their own one of which starts with a name beginning like `def`/`class`, a description with characters outside ASCII before the condition on its line) x 3 nestings (function in a factory, method of a class in a factory, async function) x "
         "with/without description.  Compared: exception class at the caller, the condition text in the message parsed back "
         "to the generated expression, and the nodes the re-evaluator evaluated against those CPython evaluated.")
 
